@@ -463,6 +463,10 @@ private:
       if (session.fragmentBuffer.size() > _maxFrameSize)
       {
         tooLarge = true;
+        // The message is refused: drop what was collected, or further fragments
+        // would keep growing the buffer beyond the limit.
+        std::vector<std::uint8_t>().swap(session.fragmentBuffer);
+        session.fragmentOpcode = WsOpcode::CONTINUATION;
       }
       else if (frame.fin)
       {
